@@ -10,6 +10,7 @@ import NutsModel.C02.Jar
 import NutsModel.C02.Policy
 import NutsModel.C02.Front
 import NutsModel.C02.ReqObj
+import NutsModel.C02.DPoP
 import NutsModel.Facts.C02
 import NutsProofs.Lemmas.C02
 import NutsProofs.Lemmas.C02b
@@ -18,6 +19,7 @@ import NutsProofs.Lemmas.C02d
 import NutsProofs.Lemmas.C02e
 import NutsProofs.Lemmas.C02f
 import NutsProofs.Lemmas.C02g
+import NutsProofs.Lemmas.C02h
 
 namespace Nuts.C02.Props
 open Nuts.C02
@@ -1266,5 +1268,84 @@ example : (requestJWT frontCfg (requestJWT frontCfg roStore 101 false (roName "o
 example : (requestJWT frontCfg roStore 101 false (roName "on#0") "beta" none none).2 = .err "invalid_request/client_id-mismatch" ∧
     (requestJWT frontCfg roStore 101 true (roName "on#0") "alpha" none none).2 = .err "invalid_request/post-on-get-request_uri" := by
   decide
+
+/-! ### Deepening round 3: the key binding on the resource-server side (dpop.go ValidateDPoPProof, crypto/dpop Match) -/
+
+/-- `ValidateDPoPProof` checks in the order `validateDPoP` mirrors (parse, Match, ath, jti LAST via ONE `PutIfAbsent`), `Match`
+    compares thumbprint / method / stripped URLs with exact `!=`, `strip` drops exactly scheme, port, query and fragment, the
+    jti is remembered under the jti itself for as long as an access token is valid; the s2s nonce is remembered under the
+    nonce itself (not qualified by any unsigned request parameter) and the authorization code is looked up by the code. -/
+theorem fact_dpop_validate_shape :
+    Facts.C02.condsValidateDPoP = ["err != nil",
+      "dpopToken.Match(request.Body.Thumbprint, request.Body.Method, request.Body.Url); !ok", "!ok",
+      "ath != base64.RawURLEncoding.EncodeToString(hash.Slice())", "err != nil", "!fresh"] ∧
+    Facts.C02.chainValidateDPoP = ["Parse", "Match", "Get", "SHA256Sum", "EncodeToString", "Slice",
+      "useNonceOnceStore.PutIfAbsent", "JwtID"] ∧
+    Facts.C02.condsDpopMatch = ["base64tp != jkt", "method != t.HTM()", "err != nil", "err != nil", "urlLeft != urlRight"] ∧
+    Facts.C02.chainDpopMatch = ["JWK.Thumbprint", "EncodeToString", "HTM", "HTM", "strip", "HTU", "strip"] ∧
+    Facts.C02.assignsDpopStrip = ["url.Scheme = \"https\"", "url.Host = strings.Split(url.Host, \":\")[0]",
+      "url.RawQuery = \"\"", "url.Fragment = \"\""] ∧
+    Facts.C02.dpopStoreKeys = ["useNonceOnceStore.PutIfAbsent(dpopToken.Token.JwtID())"] ∧
+    Facts.C02.nonceOnceTtlMs = Facts.C02.accessTokenValidityMs ∧ 0 < Facts.C02.nonceOnceTtlMs := by decide
+
+theorem fact_once_only_store_keys :
+    Facts.C02.s2sNonceStoreKeys = ["s2sNonceStore.PutIfAbsent(nonce)"] ∧
+    Facts.C02.codeStoreKeys = ["oauthCodeStore.Delete(*request.Code)", "oauthCodeStore.GetAndDelete(*request.Code)"] := by decide
+
+/-- **dpop_valid_only_if.** The node answers `valid` for a proof of possession only if the proof parsed (signature under its
+    own embedded key), that key's thumbprint IS the thumbprint the caller supplied (the `cnf.jkt` introspection reported =
+    the key established at issuance), the proof names exactly this method and this URL, its `ath` is the digest of exactly
+    this access token, the store did not fail, and the jti was not remembered - and then it is remembered from now on. -/
+theorem dpop_valid_only_if (ath : String → String) (ttl now : Nat) (st st' : Store Unit) (c : DPoPCheck)
+    (h : validateDPoP ath ttl now st c = (st', .ok .valid)) : ∃ p, DPoPAccepted ath ttl now st st' c p :=
+  validateDPoP_valid ath ttl now st st' c h
+
+/-- **every other answer leaves the jti store unchanged** (so a wrong guess cannot burn somebody else's proof, and a store
+    failure yields no verdict at all) -/
+theorem dpop_not_valid_leaves_state (ath : String → String) (ttl now : Nat) (st : Store Unit) (c : DPoPCheck)
+    (h : (validateDPoP ath ttl now st c).2 ≠ .ok .valid) : (validateDPoP ath ttl now st c).1 = st := by
+  rcases validateDPoP_state ath ttl now st c with hv | hs
+  · exact absurd hv h
+  · exact hs
+
+/-- **dpop_proof_accepted_at_most_once.** After a proof was answered `valid` at `t₁`, EVERY later validation (after any
+    history of other validations) of any proof with the same jti within the lifetime of an access token is refused -
+    whatever thumbprint, method, URL or token it is presented with. -/
+theorem dpop_proof_accepted_at_most_once (ath : String → String) (ttl : Nat) (httl : ttl ≠ 0)
+    (st st₁ : Store Unit) (t₁ : Nat) (c₁ : DPoPCheck) (h₁ : validateDPoP ath ttl t₁ st c₁ = (st₁, .ok .valid))
+    (between : List (Nat × DPoPCheck)) (hlater : ∀ x ∈ between, t₁ ≤ x.1)
+    (t₂ : Nat) (hin : t₂ ≤ t₁ + ttl) (c₂ : DPoPCheck) (p₁ p₂ : DPoPProof)
+    (hp₁ : c₁.proof = some p₁) (hp₂ : c₂.proof = some p₂) (hsame : p₂.jti = p₁.jti) :
+    (validateDPoP ath ttl t₂ (runDPoP ath ttl between st₁) c₂).2 ≠ .ok .valid := by
+  obtain ⟨p, hacc⟩ := validateDPoP_valid ath ttl t₁ st st₁ c₁ h₁
+  have hpp : p = p₁ := by
+    have := hacc.parsed
+    rw [hp₁] at this
+    exact (Option.some.inj this).symm
+  subst hpp
+  have hlive : Live st₁ p.jti (t₁ + ttl) := by rw [hacc.effect]; exact live_put_self st t₁ ttl p.jti httl
+  have hlive' := runDPoP_live ath ttl httl p.jti (t₁ + ttl) between st₁
+    (fun x hx => by have := hlater x hx; omega) hlive
+  rw [← hsame] at hlive'
+  exact validateDPoP_rejects_live ath ttl t₂ _ c₂ p₂ hp₂ (t₁ + ttl) hlive' hin
+
+/-! non-vacuity: a matching proof is valid once, then refused (also for another URL); each single mismatch is refused and
+    stores nothing -/
+private def demoProof : DPoPProof := ⟨"jkt#1", "POST", some "https://rs.example/api", .str "ath(tok#0)", "jti-1"⟩
+private def demoCheck : DPoPCheck :=
+  { proof := some demoProof, thumbprint := "jkt#1", method := "POST", url := some "https://rs.example/api", token := "tok#0" }
+private def demoAth (t : String) : String := "ath(" ++ t ++ ")"
+
+example : (validateDPoP demoAth 900 100 [] demoCheck).2 = .ok .valid := by decide
+example : (validateDPoP demoAth 900 1000 (validateDPoP demoAth 900 100 [] demoCheck).1
+    { demoCheck with url := some "https://rs.example/other" }).2 = .ok (.invalid "url mismatch") := by decide
+example : (validateDPoP demoAth 900 1000 (validateDPoP demoAth 900 100 [] demoCheck).1 demoCheck).2 =
+    .ok (.invalid "jti already used") := by decide
+example : (validateDPoP demoAth 900 100 [] { demoCheck with thumbprint := "jkt#2" }).2 = .ok (.invalid "jkt mismatch") ∧
+    (validateDPoP demoAth 900 100 [] { demoCheck with method := "post" }).2 = .ok (.invalid "method mismatch") ∧
+    (validateDPoP demoAth 900 100 [] { demoCheck with token := "tok#1" }).2 = .ok (.invalid "ath/token claim mismatch") ∧
+    (validateDPoP demoAth 900 100 [] { demoCheck with fault := true }).2 = .err "jti-store-error" ∧
+    (validateDPoP demoAth 900 100 [] { demoCheck with fault := true }).1.length = 0 ∧
+    (validateDPoP demoAth 900 100 [] demoCheck).1.length = 1 := by decide
 
 end Nuts.C02.Props
